@@ -457,7 +457,7 @@ def main():
         worker(a)
         return
     tier = a.tier
-    per = 9 if tier == "quick" else 90
+    per = 9 if tier == "quick" else 250
     rc = pbt.run_parallel(
         PID, os.path.abspath(__file__), tier, 12, per, "exploration",
         "Hypothesis-generated scenarios: 1-8 aircraft placed by bearing/distance around one of five receiver sites (all quadrants, the axes, the receiver position itself), with or without callsign / position / velocity / extra frames, frames built by a reference CPR encoder and fed over TCP to the radar binary on a 50x160 pty; the terminal output is parsed by a VT emulator. Oracle: Airplanes tab rows == tracker records computed by the real library from the same frames (address, callsign, lat/lon/distance to 3 decimals, altitude, message count; blank until a position exists; titles count the tracked aircraft); Stats totals == number of newly-added events / largest simultaneous count; Map: axes cross at the canvas centre, each marker on the correct side of the centre, offsets proportional (scale calibrated from the farthest marker, +-1.6 cells); view controls (zoom keys, scroll, pan keys, drag) leave both tables unchanged, zoom scales offsets by 1.1^n, a horizontal pan moves all markers by one vector, Enter restores the map cell for cell. non-trivial = aircraft in >= 2 quadrants and >= 1 view control; distinct by hash of the case",
